@@ -34,7 +34,7 @@ def on_site(p, r, exc, acc):
     site = r["site"]
     desc = dict(site=site, buffers=r["d"], callers=r["c"], nextcaller_pending=r["pending"], hosted=r["hosted"])
     acc.tags["ran"] += 1
-    normal = RS.SITES[site][0]
+    normal = RS.ALL_SITES[site][0]
     if r["hosted"]:
         normal = "h" + normal + "[none]" + ("hb" if r["pending"] else "nocaller") + "e"
     C13.check_state(r, acc, desc, "")
@@ -164,7 +164,7 @@ if "attribute" in CASE:
     except Exception as e:
         print("template failed:", type(e).__name__, e)
 else:
-    from props.render_step import TEMPLATE, INC, SITES, Boom
+    from props.render_step import TEMPLATE_FULL as TEMPLATE, INC, ALL_SITES as SITES, Boom
     site = CASE["site"]
     lk = TemplateLookup(); lk.put_string("inc", INC)
     lk.put_string("main", TEMPLATE + "start|${%s()}|<%%call expr=\\\\"h_%s()\\\\">hb</%%call>|end" % (site, site))
@@ -202,7 +202,8 @@ def run(check, tier):
     check.not_claimed("Python argument-binding rules of re-emitted signatures (FunctionDecl.get_argument_expressions)",
                       "closure generation for arbitrary nesting shapes")
     jobs = []
-    for site in RS.SITES:
+    sites = list(RS.SITES) + (list(RS.NESTED) if tier == "thorough" else [n for n in RS.NESTED if n.endswith("_s_call") or n.endswith("_s_buf")])
+    for site in sites:
         jobs.append(("C05-" + site, h_site(site, False), on_site, "construct %s from a symbolic pre-state" % site, dict(site=site), ("ran",)))
         jobs.append(("C05-h-" + site, h_site(site, True), on_site, "construct %s inlined in a def that then uses its caller" % site, dict(site=site), ("ran",)))
     for n in range(0, {"quick": 3, "thorough": 5}[tier] + 1):
